@@ -186,12 +186,12 @@ def describe(c):
 
 def extra_checks(ctx, cases, impl_lines, model_lines):
     """several rollers with pairwise disjoint archive names sharing ONE not-yet-existing archive directory
-    tree roll for the first time at the same moment (4 threads behind a barrier, 60 rounds plain + 20 gzip):
+    tree (one or three missing levels) roll for the first time at the same moment (8 threads behind a barrier, 200 rounds plain + 40 gzip):
     every roll must succeed and put its file at its own base name (direct oracle; the window theorems are
     per roller and the rollers share no name)"""
     vc = ctx["vc"]
     res = []
-    lines = [vc.show([9, 60, 4, 0]), vc.show([9, 20, 4, 1])]
+    lines = [vc.show([9, 200, 8, 0]), vc.show([9, 40, 8, 1])]
     got = vc.run_lines([ctx["vh"]], lines, timeout_per_batch=300)
     for ln, g in zip(lines, got):
         try:
@@ -203,5 +203,5 @@ def extra_checks(ctx, cases, impl_lines, model_lines):
                         "moment: (rolls that returned Err, files not at their base archive name) = %r" % (v if v is not None else g,),
                         {"case_line": ln}))
             break
-    ctx.setdefault("xcheck", {})["concurrent_first_rolls"] = 80 * 4
+    ctx.setdefault("xcheck", {})["concurrent_first_rolls"] = 240 * 8
     return res
